@@ -54,7 +54,9 @@ def gen_line(rng, big=False):
         n = min(n, maxw, 6000 if big else 400)
         b = content(rng, n, pool)
         pool.append(b)
-        ops.append('c' + hexs(b))
+        # 'C': committed through a buffer from get_next_space (capacity = slice size whatever the length), as the frame
+        # compressor does; 'c': through an exactly sized buffer
+        ops.append(('C' if rng.below(2) else 'c') + hexs(b))
         ops.append('k' if rng.below(5) == 0 else 'm')
     return '%d %d %s' % (slice_size, slices, ' '.join(ops))
 
@@ -70,6 +72,7 @@ def oracle(line, result):
     res = res[1:]
     entries = []          # retained blocks, oldest first
     for i, op in enumerate(ops):
+        op = op.replace('C', 'c', 1) if op[0] == 'C' else op
         if i >= len(res):
             return 'no result for operation %d (%s)' % (i, op[:1])
         r = res[i]
